@@ -185,6 +185,77 @@ def systematic_templates():
     return out
 
 
+_ATYPE = {None: (0, 0), '.': (1, 0), ':': (2, 0), '+': (0, 1), '-': (0, -1),
+          '+.': (1, 1), '-.': (1, -1)}
+
+
+def has_charge_edit(ast):
+    return any(e[0] in ('chg+', 'chg-', 'atype') for e in ast['edits'])
+
+
+def charge_templates():
+    """Rules with formal-charge edits ('increase / decrease formal charge',
+    'modify atomtype (a, X+)').  Which of them the reader accepts is NOT
+    judged (the property's balance clause speaks of bond and radical edits);
+    every radical compensation from -2..+2 is offered and the accepted ones
+    are judged on what they do to the molecule."""
+    out = []
+    for sym in ('C', 'O'):
+        for sfx in (None, '.', '+', '-'):
+            for chg in ('chg+', 'chg-'):
+                for comp in (-2, -1, 0, 1, 2):
+                    op = 'rad+' if comp > 0 else 'rad-'
+                    edits = [(chg, 0)] + [(op, 0)] * abs(comp)
+                    out.append(('charge: %s%s %s rad%+d' % (
+                        sym, sfx or '', chg, comp), [(sym, sfx)], [], edits))
+            for tgt in (None, '.', ':', '+', '-', '+.', '-.'):
+                if tgt == sfx:
+                    continue
+                # (refused as 'not supported' by the reader at the pinned
+                # commit: offered so that a reader that starts accepting
+                # them gets its edits judged)
+                for comp in (0,):
+                    op = 'rad+' if comp > 0 else 'rad-'
+                    edits = [('atype', 0, tgt, sym)] + [(op, 0)] * abs(comp)
+                    out.append(('atomtype: %s%s -> %s%s rad%+d' % (
+                        sym, sfx or '', sym, tgt or '', comp), [(sym, sfx)],
+                        [], edits))
+    # charge edits next to bond edits, on the 2nd / 3rd pattern atom
+    for comp_h in (0, 1):
+        out.append(('charge: O-H break, H charged rad%+d' % comp_h,
+                    [('C', None), ('O', None), ('H', None)],
+                    [(1, 0, 'single'), (2, 1, 'single')],
+                    [('break', 1, 2, None), ('rad+', 1), ('chg+', 2)] +
+                    [('rad+', 2)] * comp_h))
+    out.append(('charge: C-C break, cation + radical pair',
+                [('C', None), ('C', None), ('C', None)],
+                [(1, 0, 'single'), (2, 1, 'single')],
+                [('break', 1, 2, None), ('chg+', 2), ('rad+', 1)]))
+    out.append(('charge: C+ captured to radical', [('C', None), ('C', '+')],
+                [(1, 0, 'single')], [('chg-', 1), ('rad+', 1)]))
+    out.append(('charge: O- to O radical', [('C', None), ('O', '-')],
+                [(1, 0, 'single')], [('chg+', 1), ('rad+', 1)]))
+    out.append(('charge: O- to O radical (other sign)',
+                [('C', None), ('O', '-')],
+                [(1, 0, 'single')], [('chg+', 1), ('rad-', 1)]))
+    return [t for t in out if _radicals_stay_nonnegative(t)]
+
+
+def _radicals_stay_nonnegative(t):
+    _, atoms, _, edits = t
+    r = [{'.': 1, ':': 2, '+.': 1, '-.': 1}.get(x, 0) for _, x in atoms]
+    for e in edits:
+        if e[0] == 'rad+':
+            r[e[1]] += 1
+        elif e[0] == 'rad-':
+            r[e[1]] -= 1
+        elif e[0] == 'atype':
+            r[e[1]] = _ATYPE[e[2]][0]
+        if min(r) < 0:
+            return False
+    return True
+
+
 def random_template(rng):
     """A random reactant fragment (2-4 atoms over C/O/H) with a random
     sequence of 1-4 bond edits (each pair is broken / formed / modified at
@@ -345,6 +416,9 @@ def render_edit(e, labels, rng=None):
     if op in ('chg+', 'chg-'):
         return '%s formal charge%s(%s)' % (
             'increase' if op == 'chg+' else 'decrease', sp(), a)
+    if op == 'atype':
+        return 'modify atomtype%s(%s,%s%s%s)' % (sp(), a, sp(), e[3],
+                                                 e[2] or '')
     raise ValueError(op)
 
 
@@ -468,6 +542,8 @@ def apply(ast, mol_h, emb):
             g.nodes[a]['q'] += 1
         elif op == 'chg-':
             g.nodes[a]['q'] -= 1
+        elif op == 'atype':
+            g.nodes[a]['r'], g.nodes[a]['q'] = _ATYPE[e[2]]
     return g
 
 
